@@ -168,12 +168,12 @@ var catalogue = []qtext{
 	{"{ ext hdr op }", nil, nil},
 	{"{ __typename node { __typename id } }", nil, nil},
 	{"subscription T { tick }", []string{"T"}, nil},
-	{"{ op ", nil, nil},                        // syntax error
-	{"{ nope }", nil, nil},                      // validation error
+	{"{ op ", nil, nil},                             // syntax error
+	{"{ nope }", nil, nil},                          // validation error
 	{"query V($s: Strin) { arg(s: $s) }", nil, nil}, // unknown type
 	{"", nil, nil},
 	{"fragment X on Query { op }", nil, nil}, // no operation
-	{"{ k é: op }", nil, nil},             // non-ASCII is a syntax error for names
+	{"{ k é: op }", nil, nil},                // non-ASCII is a syntax error for names
 	{"# c\n{ k op }", nil, nil},
 }
 
